@@ -9,7 +9,10 @@ its ordering is known from the source:
     the value parameter of an `xpxp_*` / `xxpp_*` setter                           -> that ordering
     E[I] / E[np.ix_(I, I)] with I = xxpp_to_xpxp_indices(..)                        : E must be xxpp, result xpxp
     E[I] / E[np.ix_(I, I)] with I = xpxp_to_xxpp_indices(..)                        : E must be xpxp, result xxpp
-    scalar * E, E / scalar, -E, E.T, E.conj(), E.copy(), inv(E), real/imag(E)       -> tag of E
+    scalar * E, E / scalar, -E, E.T, E.conj(), E.copy(), inv(E), real/imag(E), diag(E) -> tag of E
+    doubling of an (untagged) per-mode vector v:  v.repeat(2) / np.repeat(v, 2)     -> pairwise layout (v1, v1, v2, v2, ..) = xpxp
+                                                  np.concatenate([v, v]) / np.tile(v, 2) -> block layout (v1..vd, v1..vd) = xxpp
+    X.complex_covariance / X.complex_displacement (xi = a_1..a_d, a_1^dagger..a_d^dagger)   -> block layout = xxpp
     E1 + E2, E1 - E2, E1 @ E2                                                       : both tags, if known, must agree
 
 Everything else is untagged; only *definite* disagreements (two known tags that differ, a conversion applied to a
@@ -28,7 +31,8 @@ XPXP, XXPP = "xpxp", "xxpp"
 CONV = {"xxpp_to_xpxp_indices": (XXPP, XPXP), "xpxp_to_xxpp_indices": (XPXP, XXPP)}
 FORMS = {"symplectic_form": XPXP, "xp_symplectic_form": XXPP}
 QUANTITIES = ("mean_vector", "covariance_matrix", "correlation_matrix")
-PROPAGATING_CALLS = {"inv", "real", "imag", "conj", "conjugate", "copy", "array", "asarray", "transpose", "pinv", "abs"}
+PROPAGATING_CALLS = {"inv", "real", "imag", "conj", "conjugate", "copy", "array", "asarray", "transpose", "pinv", "abs", "diag"}
+BLOCK_ATTRS = {"complex_covariance", "complex_displacement"}
 PROPAGATING_ATTRS = {"T", "real", "imag"}
 
 
@@ -82,11 +86,28 @@ class BasisTyping:
         if isinstance(e, ast.Attribute):
             if e.attr in PROPAGATING_ATTRS:
                 return self.tag(e.value)
+            if e.attr in BLOCK_ATTRS:
+                return XXPP
             return _attr_tag(e)
         if isinstance(e, ast.Call):
             nm = (dotted(e.func) or "").split(".")[-1]
+            if not nm and isinstance(e.func, ast.Attribute):
+                nm = e.func.attr  # method of a computed value: (np.tan(x)).repeat(2)
             if nm in FORMS:
                 return FORMS[nm]
+            two = lambda x: isinstance(x, ast.Constant) and x.value == 2  # noqa: E731
+            # doubling a per-mode vector fixes the layout of the doubled vector
+            if nm == "repeat" and not e.keywords:
+                if isinstance(e.func, ast.Attribute) and len(e.args) == 1 and two(e.args[0]) and (dotted(e.func.value) or "") not in ("np", "numpy", "fallback_np"):
+                    return XPXP if self.tag(e.func.value) is None else self.tag(e.func.value)
+                if len(e.args) == 2 and two(e.args[1]):
+                    return XPXP if self.tag(e.args[0]) is None else self.tag(e.args[0])
+            if nm == "tile" and len(e.args) == 2 and two(e.args[1]) and not e.keywords:
+                return XXPP if self.tag(e.args[0]) is None else self.tag(e.args[0])
+            if nm == "concatenate" and len(e.args) == 1 and isinstance(e.args[0], (ast.List, ast.Tuple)) and len(e.args[0].elts) == 2 \
+                    and norm(e.args[0].elts[0]) == norm(e.args[0].elts[1]) and not e.keywords:
+                inner = self.tag(e.args[0].elts[0])
+                return XXPP if inner is None else inner
             if nm in PROPAGATING_CALLS:
                 if isinstance(e.func, ast.Attribute) and not e.args:
                     return self.tag(e.func.value)
